@@ -54,6 +54,8 @@ def _make_instance(spec: dict) -> Any:
         return lib.KwBlock(D, seed)
     if cls == "LateBlock":
         return lib.LateBlock(D, seed)
+    if cls == "UView":
+        return lib.UView(seed, mid=float(spec.get("mid", 0.0)))
     if cls == "NamedIdentity":
         return lib.NamedIdentity(D, seed)
     if cls == "BaseAffine":
@@ -148,7 +150,7 @@ def build_callable(program: dict, pool: Pool, keep: list) -> Any:
     return fn
 
 
-_SPEC_DEFAULTS = {"Block": {"act": "gelu"}, "UBlock": {"flip": False}, "EqxBlock": {"slope": 0.1}, "RecScale": {"depth": 1, "via_wrap": True}}
+_SPEC_DEFAULTS = {"Block": {"act": "gelu"}, "UBlock": {"flip": False}, "EqxBlock": {"slope": 0.1}, "RecScale": {"depth": 1, "via_wrap": True}, "UView": {"mid": 0.0}}
 _KW_DEFAULTS = {"fn_scale": {"factor": 2.0}, "KwBlock": {"scale": 1.0}, "fn_gain": {"gain": 1}}
 
 
@@ -459,7 +461,7 @@ def run(plan: dict) -> dict:
 # coordinator: history generator
 # ---------------------------------------------------------------------------
 
-CLASSES = ["Block", "UBlock", "EqxBlock", "PlainScale", "KwBlock", "Outer", "Inner", "RecScale", "BaseAffine", "DerivedAffine", "NamedIdentity"]
+CLASSES = ["Block", "UBlock", "EqxBlock", "PlainScale", "KwBlock", "Outer", "Inner", "RecScale", "BaseAffine", "DerivedAffine", "NamedIdentity", "UView"]
 
 
 def gen_history(seed: int, run: int, n_ops: int) -> list[dict]:
@@ -488,6 +490,8 @@ def gen_history(seed: int, run: int, n_ops: int) -> list[dict]:
                     spec["slope"] = r.choice([0.1, 0.2, 0.5])
                 elif spec["cls"] == "RecScale":
                     spec["depth"] = r.choice([0, 1, 2])
+                elif spec["cls"] == "UView":
+                    spec["mid"] = r.choice([0.0, 0.5, 1.0, 2.0])
                 else:
                     spec["seed"] = spec["seed"] + 1
         else:
